@@ -222,3 +222,89 @@ ASSUMPTIONS = [
 OUTSIDE = ['what gpg itself takes as the cleartext (binary)', 'CR/LF translation below load()',
            'more than 3 free lines between the canonical prefix and suffix']
 STUBS = ['openpgp_env -> recorder returning or raising']
+
+
+def validate(seed, tier):
+    """Ties the reference to the real gpg binary (where installed): a Manifest is really
+    clear-signed and then mutated textually (whitespace/TAB separator, added dash-escapes,
+    data before/after the block, duplicated or altered signed lines, injected armor headers,
+    concatenated messages, CR/LF); whenever the real load() with real verification succeeds,
+    its entries must equal the entries of the cleartext gpg authenticated
+    (`gpg --decrypt`), and it must report itself signed."""
+    import os
+    import shutil
+    import subprocess
+    import tempfile
+    import gemato.openpgp as g_pgp
+    from gemato.exceptions import GematoException
+    if shutil.which('gpg') is None:
+        return 0, [{'note': 'no gpg binary'}], []
+    agree, details, errs = 0, [], []
+    home = tempfile.mkdtemp(prefix='vf-gpg-', dir=os.environ.get('TMPDIR', '/tmp'))
+    os.chmod(home, 0o700)
+    old = os.environ.get('GNUPGHOME')
+    os.environ['GNUPGHOME'] = home
+
+    def gpg(*a, inp=None):
+        return subprocess.run(['gpg', '--batch', '--pinentry-mode', 'loopback',
+                               '--passphrase', ''] + list(a), input=inp,
+                              capture_output=True)
+    try:
+        gpg('--quick-generate-key', 'vf test <vf@example.org>', 'ed25519', 'sign', 'never')
+        body = 'DATA a 0\nIGNORE b\n\n- dashed\nDATA c 1\n'.replace('- dashed\n', '')
+        signed = gpg('--clearsign', inp=body.encode()).stdout.decode()
+        lines = signed.split('\n')
+        sep = lines.index('')           # the header/body separator
+        muts = {
+            'original': signed,
+            'space separator': '\n'.join(lines[:sep] + [' '] + lines[sep + 1:]),
+            'tab separator': '\n'.join(lines[:sep] + ['\t'] + lines[sep + 1:]),
+            'dash-escaped entry': signed.replace('DATA a 0', '- DATA a 0'),
+            'double dash-escape': signed.replace('DATA a 0', '- - DATA a 0'),
+            'data before': 'DATA x 0\n' + signed,
+            'blank before': '\n\n' + signed,
+            'data after': signed + 'DATA y 0\n',
+            'blank after': signed + '\n  \n',
+            'altered line': signed.replace('DATA c 1', 'DATA c 2'),
+            'duplicated line': signed.replace('IGNORE b\n', 'IGNORE b\nIGNORE b\n'),
+            'trailing blanks': signed.replace('DATA a 0\n', 'DATA a 0  \n'),
+            'comment header': signed.replace('Hash:', 'Comment: x\nHash:'),
+            'concatenated': signed + signed,
+            'crlf': signed.replace('\n', '\r\n'),
+            'truncated': '\n'.join(lines[:-3]) + '\n',
+            'entry in headers': signed.replace('Hash:', 'DATA evil 0\nHash:'),
+        }
+        env = g_pgp.SystemGPGEnvironment()
+        for name, text in muts.items():
+            m = ManifestFile()
+            try:
+                m.load(io.StringIO(text), verify_openpgp=True, openpgp_env=env)
+                got = [tuple(e.to_list()) for e in m.entries]
+                accepted = True
+            except GematoException as e:
+                accepted, got = False, type(e).__name__
+            if not accepted:
+                agree += 1
+                details.append({'mutation': name, 'load': got})
+                continue
+            if not m.openpgp_signed and text.lstrip().startswith('-----BEGIN'):
+                errs.append(f'{name}: accepted but not reported signed')
+            dec = gpg('--decrypt', inp=text.encode())
+            auth = [tuple(ln.split()) for ln in dec.stdout.decode().splitlines()
+                    if ln.strip()]
+            if dec.returncode != 0:
+                errs.append(f'{name}: gemato accepted what gpg --decrypt refuses')
+            elif auth != got:
+                errs.append(f'{name}: entries {got} differ from the cleartext gpg '
+                            f'authenticated {auth}')
+            else:
+                agree += 1
+                details.append({'mutation': name, 'load': 'accepted', 'entries': len(got)})
+    finally:
+        subprocess.run(['gpgconf', '--kill', 'all'], capture_output=True)
+        if old is None:
+            os.environ.pop('GNUPGHOME', None)
+        else:
+            os.environ['GNUPGHOME'] = old
+        shutil.rmtree(home, ignore_errors=True)
+    return agree, details, errs
